@@ -34,6 +34,12 @@ var overlapCompositeAliases = []string{"", "", "o", "f"}
 // OverlapDocument draws a document over OverlapSchema. acyclic=true forbids spreads that
 // could form a fragment cycle (fragments then only spread higher-numbered fragments).
 func OverlapDocument(t *rapid.T, acyclic bool) *ref.Doc {
+	switch rapid.IntRange(0, 7).Draw(t, "pattern") {
+	case 0:
+		return twinRecursion(t)
+	case 1:
+		return exclusiveThenCommon(t)
+	}
 	nfrag := rapid.IntRange(1, 4).Draw(t, "nfrag")
 	names := make([]string, nfrag)
 	for i := range names {
@@ -222,4 +228,64 @@ func DropUnreachableFragments(d *ref.Doc) {
 		}
 	}
 	d.Frags = keep
+}
+
+func leafSel(t *rapid.T) *ref.Selection {
+	return &ref.Selection{Kind: "Field", Alias: rapid.SampledFrom(overlapLeafAliases).Draw(t, "pla"), Name: rapid.SampledFrom(overlapLeaves).Draw(t, "pleaf")}
+}
+
+// twinRecursion: two fragments of the same shape that recurse into themselves through fields,
+// one field below an inline fragment (possibly on different object types in the two fragments,
+// which makes that pair mutually exclusive), one directly; both spread into one selection set.
+func twinRecursion(t *rapid.T) *ref.Doc {
+	objs := []string{"Dog", "Cat", "Pet", "Person"}
+	c1 := rapid.SampledFrom(overlapComposites).Draw(t, "c1")
+	c2 := rapid.SampledFrom(overlapComposites).Draw(t, "c2")
+	a1 := rapid.SampledFrom([]string{"o", "f", ""}).Draw(t, "a1")
+	a2 := rapid.SampledFrom([]string{"f", "o", ""}).Draw(t, "a2")
+	order := rapid.Bool().Draw(t, "order")
+	mk := func(name, cond string) *ref.Fragment {
+		under := &ref.Selection{Kind: "Inline", TypeCond: cond, Sels: []*ref.Selection{{Kind: "Field", Alias: a1, Name: c1, Sels: []*ref.Selection{{Kind: "Spread", Name: name}}}}}
+		direct := &ref.Selection{Kind: "Field", Alias: a2, Name: c2, Sels: []*ref.Selection{{Kind: "Spread", Name: name}}}
+		f := &ref.Fragment{Name: name, TypeCond: rapid.SampledFrom([]string{"Pet", "Pet", "Person", "Query"}).Draw(t, "ftc")}
+		if order {
+			f.Sels = []*ref.Selection{under, direct}
+		} else {
+			f.Sels = []*ref.Selection{direct, under}
+		}
+		if rapid.Bool().Draw(t, "extra") {
+			f.Sels = append(f.Sels, leafSel(t))
+		}
+		return f
+	}
+	a := mk("A", rapid.SampledFrom(objs).Draw(t, "ca"))
+	b := mk("B", rapid.SampledFrom(objs).Draw(t, "cb"))
+	root := &ref.Selection{Kind: "Field", Name: rapid.SampledFrom([]string{"pet", "person", "q"}).Draw(t, "root"), Sels: []*ref.Selection{{Kind: "Spread", Name: "A"}, {Kind: "Spread", Name: "B"}}}
+	return &ref.Doc{Ops: []*ref.Operation{{Op: "query", Sels: []*ref.Selection{root}}}, Frags: []*ref.Fragment{a, b}}
+}
+
+// exclusiveThenCommon: two fragments meet first below same-named fields of two different
+// object types (mutually exclusive parents) and then in one selection set, in either order.
+func exclusiveThenCommon(t *rapid.T) *ref.Doc {
+	body := func() []*ref.Selection {
+		var out []*ref.Selection
+		for i, n := 0, rapid.IntRange(1, 3).Draw(t, "nb"); i < n; i++ {
+			out = append(out, leafSel(t))
+		}
+		return out
+	}
+	a := &ref.Fragment{Name: "A", TypeCond: "Person", Sels: body()}
+	b := &ref.Fragment{Name: "B", TypeCond: "Person", Sels: body()}
+	keeper := func(frag string) *ref.Selection {
+		return &ref.Selection{Kind: "Field", Name: "owner", Sels: []*ref.Selection{{Kind: "Spread", Name: frag}}}
+	}
+	exclusive := &ref.Selection{Kind: "Field", Name: rapid.SampledFrom([]string{"pet", "cd"}).Draw(t, "abs"), Sels: []*ref.Selection{
+		{Kind: "Inline", TypeCond: "Dog", Sels: []*ref.Selection{keeper("A")}},
+		{Kind: "Inline", TypeCond: rapid.SampledFrom([]string{"Cat", "Cat", "Dog"}).Draw(t, "second"), Sels: []*ref.Selection{keeper("B")}}}}
+	common := &ref.Selection{Kind: "Field", Name: "person", Sels: []*ref.Selection{{Kind: "Spread", Name: "A"}, {Kind: "Spread", Name: "B"}}}
+	sels := []*ref.Selection{exclusive, common}
+	if rapid.Bool().Draw(t, "commonfirst") {
+		sels = []*ref.Selection{common, exclusive}
+	}
+	return &ref.Doc{Ops: []*ref.Operation{{Op: "query", Sels: sels}}, Frags: []*ref.Fragment{a, b}}
 }
